@@ -18,9 +18,10 @@ git -C "$WT" apply "$SD/patch.diff" || { echo "RESULT apply-failed"; exit 1; }
 suite=$( cd "$WT/v8" && go test -vet=off -count=1 ./... 2>&1 | grep -v "no test files" | grep -v "^ok" | head -5 )
 if [ -n "$suite" ]; then echo "suite output: $suite"; fi
 cp "$demo" "$WT/$pkgdir/zz_seed_demo_test.go"
-with=$( cd "$WT/$pkgdir" && go test -vet=off -count=1 -run 'Seed|seed|ZZ|Zz' . 2>&1 | tail -3 | tr '\n' ' ' )
+RACE=""; grep -qs -- "-race" "$SD/notes.md" "$demo" && RACE="-race"   # demonstrations of data races need the race detector
+with=$( cd "$WT/$pkgdir" && go test $RACE -vet=off -count=1 -run 'Seed|seed|ZZ|Zz' . 2>&1 | tail -3 | tr '\n' ' ' )
 git -C "$WT" apply -R "$SD/patch.diff"
-without=$( cd "$WT/$pkgdir" && go test -vet=off -count=1 -run 'Seed|seed|ZZ|Zz' . 2>&1 | tail -3 | tr '\n' ' ' )
+without=$( cd "$WT/$pkgdir" && go test $RACE -vet=off -count=1 -run 'Seed|seed|ZZ|Zz' . 2>&1 | tail -3 | tr '\n' ' ' )
 rm -f "$WT/$pkgdir/zz_seed_demo_test.go"
 echo "suite_with_change: $( [ -z "$suite" ] && echo pass || echo FAIL )"
 echo "demo_with_change: $with"
